@@ -571,6 +571,30 @@ class Editor:
                         "errors": [r"^missing struct: %s$" % esc(name)]}
         return None
 
+    def struct_kind_change(self):
+        """the declaration keeps its name and fields but changes kind (struct <-> exception <-> union): the old
+        declaration no longer exists in its kind, which the audit reports as a missing struct"""
+        m = self.new["main"]
+        for kind in self.pick(KINDS):
+            for item in self.pick(m[kind]):
+                name, fs = item
+                if referenced(self.new, "main", name) or referenced(self.old, "main", name):
+                    continue
+                plain = all(f.get("mod") is None and f.get("default") is None for f in fs)
+                targets = [k for k in KINDS if k != kind and (k != "unions" or (plain and fs))]
+                if kind == "unions" and not fs:
+                    continue
+                if not targets:
+                    continue
+                to = self.rng.choice(targets)
+                if not self.free((kind, name), (to, name)):
+                    continue
+                m[kind].remove(item)
+                m[to].insert(self.rng.randrange(len(m[to]) + 1), item)
+                return {"name": "struct_kind_changed", "breaking": True, "claims": [(kind, name), (to, name)],
+                        "errors": [r"^missing struct: %s$" % esc(name)]}
+        return None
+
     def struct_add(self):
         m = self.new["main"]
         kind = self.rng.choice(KINDS)
@@ -939,6 +963,7 @@ BREAKING_EDITS = [
     ("field_removed", lambda e: e.field_remove(optional=False)),
     ("required_field_added", lambda e: e.field_add(required=True)),
     ("struct_removed", lambda e: e.struct_remove()),
+    ("struct_kind_changed", lambda e: e.struct_kind_change()),
     ("enum_value_removed", lambda e: e.enum_value_remove()),
     ("enum_value_renumbered", lambda e: e.enum_value_renumber()),
     ("service_removed", lambda e: e.service_remove()),
